@@ -152,3 +152,92 @@ def declared_before_used(prog: Program, rep, RID: str, classes: List[str]):
                               "super().__init__: the attribute does not exist when the encoder runs", loc)
             else:
                 rep.ok(RID, key, "declared" + (f" under {opt_guards}, switched on by the constructor" if opt_guards else ""), loc)
+
+
+def forced_empty_paths_removed(prog: Program, rep, RID: str, classes: List[str]):
+    """A class that switches `allow_empty_paths` on by itself (one layer per given weight) must not hand the unused layers out:
+    get_solution removes empty paths by default, or whenever the class forced them and the caller did not ask for empty paths."""
+    from sa import boolnf as B
+    from rules.semantic import enclosing_tests
+    for cname in classes:
+        init = prog.own_method(cname, "__init__")
+        forced = None
+        for st in walk_no_nested(init.node):
+            if isinstance(st, ast.Assign) and len(st.targets) == 1 and isinstance(st.targets[0], ast.Subscript) and \
+                    dotted(st.targets[0].value) == "self.optimization_options" and isinstance(st.targets[0].slice, ast.Constant) and \
+                    st.targets[0].slice.value == "allow_empty_paths" and isinstance(st.value, ast.Constant) and st.value.value is True:
+                forced = st
+        if forced is None:
+            continue
+        cond = B.mk_and([B.parse_pol(t, pol) for t, pol in enclosing_tests(init.node, forced)])
+        gs = prog.own_method(cname, "get_solution")
+        params = [a.arg for a in gs.node.args.args[1:]]
+        defaults = gs.node.args.defaults
+        rm = [p for p in params if p.startswith("remove_empty")]
+        key = f"{cname}.get_solution:forced-empty-paths"
+        if not rm:
+            raise AnalysisError(f"{cname}.get_solution: no remove_empty_* parameter")
+        d = defaults[len(defaults) - len(params) + params.index(rm[0])] if len(defaults) >= len(params) - params.index(rm[0]) else None
+        if isinstance(d, ast.Constant) and d.value is True:
+            rep.ok(RID, key, f"empty paths are removed by default ({rm[0]}=True)", gs.loc())
+            continue
+        # default False: the class must switch removal on itself under the forcing condition, before any return
+        hit = None
+        for st in gs.node.body:
+            if isinstance(st, ast.Return):
+                break
+            if isinstance(st, ast.If) and any(isinstance(x, ast.Assign) and len(x.targets) == 1 and norm(x.targets[0]) == rm[0] and
+                                              isinstance(x.value, ast.Constant) and x.value.value is True for x in st.body):
+                hit = st
+                break
+            if isinstance(st, ast.If) and any(isinstance(x, ast.Return) for x in ast.walk(st)):
+                break
+        if hit is None:
+            rep.violation(RID, key, f"{cname}.__init__ switches allow_empty_paths on by itself under [{B.key(cond)[:80]}] (one layer per given weight), but get_solution "
+                          f"returns all layers unless the caller passes {rm[0]}=True: a k-model hands out more than k entries, the unused ones being empty "
+                          "paths that carry the unused given weights", gs.loc())
+            continue
+        test = B.parse(hit.test)
+        extra = [a for a in B.relevant_atoms(test) if a not in B.relevant_atoms(cond)]
+        user_flags = set()
+        for st in walk_no_nested(init.node):
+            if isinstance(st, ast.Assign) and len(st.targets) == 1 and (dotted(st.targets[0]) or "").startswith("self.") and isinstance(st.value, ast.Call) and \
+                    norm(st.value.func) == "self.optimization_options.get" and st.value.args and isinstance(st.value.args[0], ast.Constant) and \
+                    st.value.args[0].value == "allow_empty_paths":
+                user_flags.add(dotted(st.targets[0]))
+        if all(a in user_flags for a in extra) and B.implies(B.mk_and([cond] + [B.mk_not(B.atom(a)) for a in extra]), test):
+            rep.ok(RID, key, f"layers of unused given weights are removed unless the caller asked for empty paths ([{B.key(test)[:90]}])", gs.loc(hit))
+        else:
+            raise AnalysisError(f"{cname}.get_solution: cannot relate the removal condition [{B.key(test)[:90]}] to the forcing condition [{B.key(cond)[:90]}]")
+
+
+def given_weights_integral(prog: Program, rep, RID: str, classes: List[str]):
+    """The given-weights encoders use solution_weights_superset[i] as it is, get_solution() publishes round(...) of it when
+    weight_type is int: the two agree only if the constructor rejects a non-integral superset for integer weights."""
+    from sa import boolnf as B
+    for cname in classes:
+        init = prog.own_method(cname, "__init__")
+        gs = prog.own_method(cname, "get_solution")
+        rounds = any(isinstance(n, ast.Call) and dotted(n.func) in ("round", "int") and "weights_sol_dict" in norm(n) for n in ast.walk(gs.node)) and \
+            any("solution_weights_superset" in norm(st.value) for st in ast.walk(gs.node) if isinstance(st, ast.Assign))
+        key = f"{cname}.__init__:given-weights-integral"
+        if not rounds:
+            rep.ok(RID, key, "given weights are published as given", gs.loc())
+            continue
+        hit = None
+        for st in ast.walk(init.node):
+            if isinstance(st, ast.If) and any(isinstance(x, ast.Raise) for x in st.body):
+                t = norm(st.test)
+                if "solution_weights_superset" in t and "round(" in t and "weight_type" in t:
+                    hit = st
+        if hit is None:
+            rep.violation(RID, key, f"{cname}.get_solution publishes round(solution_weights_superset[i]) for integer weights while the given-weights encoder uses the "
+                          "values unchanged, and the constructor accepts a non-integral superset: the model reports solved with weights that do not belong to its own "
+                          "constraints (flow 5 'explained' by [2, 2] for superset [2.5, 2.5])", init.loc())
+            continue
+        f_ = B.parse(hit.test)
+        is_int = B.parse(ast.parse("self.weight_type == int", mode="eval").body)
+        if B.implies(f_, is_int):
+            rep.ok(RID, key, "a non-integral superset is rejected with ValueError when weight_type is int", init.loc(hit))
+        else:
+            raise AnalysisError(f"{cname}.__init__: cannot relate the rejection `{norm(hit.test)[:100]}` to weight_type == int")
